@@ -1245,6 +1245,10 @@ func (ctx *RenderContext) getItem(container, index interface{}) (interface{}, er
 				return nil, nil // A nil index is not a key of any map
 			}
 
+			if !indexValue.Type().Comparable() {
+				return nil, nil // A slice, map or func is not a key of any map
+			}
+
 			if indexValue.Type().ConvertibleTo(keyType) {
 				mapKey = indexValue.Convert(keyType)
 			} else {
